@@ -178,6 +178,15 @@ def second_validation(rnd, first, rid="r1"):
     if rnd.random() < 0.3:
         request["op"]["soll"] = not request["op"]["soll"]
     request["start"] = rnd.choice([1_000_000, 1_000_000, 0, 1, 3])
+    if request["start"] < 1_000_000 and rnd.random() < 0.35:
+        # the concurrent caller is cancelled (as asyncio.wait_for would) or one of its evaluators fails: it is no
+        # longer observed itself, the first validation must not notice
+        if rnd.random() < 0.6:
+            request["fault"] = {"kind": "cancel", "at": rnd.choice([0, 1, 2, 3, 5, 50])}
+        else:
+            keys = list(cer["requirement_constraints"])
+            if keys:
+                request["fault"] = {"kind": "raise", "peer": "rc", "key": rnd.choice(keys)}
     return request
 
 
